@@ -241,6 +241,10 @@ struct C14 : Scenario {
 				crc = crc16_bitwise(crc, buf.data(), n);
 				size_t len = lha_decoder_get_length(d);
 				uint16_t c = lha_decoder_get_crc(d);
+				// the moment the caller holds the last declared byte, the monitor must have been told about the last block
+				if (attached && !mon.calls.empty() && n > 0 && got.size() == declared && ref.size() == declared
+				    && mon.calls.back().first != mon.calls.back().second)
+					res.fail("C14.monitor_final", "monitor_lags", strf("all %zu declared bytes have been returned but the monitor has only been told block %u of %u", declared, mon.calls.back().first, mon.calls.back().second));
 				if (len != got.size()) res.fail("C14.length", "length", strf("get_length %zu but %zu bytes returned so far", len, got.size()));
 				if (c != crc) res.fail("C14.crc", "crc", strf("get_crc %04x but CRC-16 of the %zu bytes returned is %04x", c, got.size(), crc));
 			}
